@@ -406,6 +406,18 @@ func (e *Exec) flow(fr *frame, in map[*ssa.BasicBlock][]edgeState, headers map[*
 		}
 		return
 	}
+	// `loop N exit e`: e must hold on every edge that leaves loop N (normal
+	// termination, break, goto); used to state that an iteration is exhaustive
+	for _, h := range li.headers {
+		if li.body[h][from] && !li.body[h][to] {
+			ord := li.ordinal[h]
+			for _, c := range e.loopClauses(fr, ord, "exit") {
+				env := e.specEnv(fr, st, h)
+				v := env.eval(c.E)
+				e.oblige(fr, st, fmt.Sprintf("loop-exit:%d", ord), "on leaving loop: "+c.Src, firstPos(to), v.T)
+			}
+		}
+	}
 	fr.edgePC[[2]*ssa.BasicBlock{from, to}] = st.pc
 	in[to] = append(in[to], edgeState{from, st})
 }
